@@ -31,6 +31,11 @@ addresses of one TCP listener and commits to the first accepted connection,
 the receiver goes through the addresses) is bound the same way: real
 dialAddrs / acceptWithContext with one forwarder per address deciding which
 path reaches the listener first, plus whole --dumb-tcp sessions.
+Relay: a pion/turn server runs inside the sandbox (coturn's use-auth-secret
+scheme, the one thruserv mints credentials for); whole sessions of the real
+binaries run with the relay candidate available and with --test-turn (relay
+only: the receiver's primary comes in on its relay listener), 1 and 3
+connections; success, identical tree, and no stall (> 9 s) are required.
 """
 import os
 import vlib
@@ -72,7 +77,18 @@ def run(tier, seed):
     tcps = vlib.run_vh_sharded(['e2e-dumbtcp', '-n', '4' if quick else '24', '-thruserv', srv, '-thru', thru], 4, timeout=900)
     for viol in tcps['violations']:
         viol['sig'].pop('prop', None)
-    res = vlib.merge_results([dial, acc, tcpd, tcps])
+    # sessions of the real binaries through a TURN server that really relays (pion/turn inside the sandbox, credentials
+    # minted by the real thruserv): relay candidate available next to the direct ones / relay only, 1 and 3 connections
+    turn = vlib.run_vh_sharded(['e2e-turn', '-n', '4' if quick else '16', '-seed', str(seed), '-thruserv', srv, '-thru', thru], 4, timeout=1800)
+    keep = []
+    for viol in turn['violations']:
+        if viol['sig'].get('prop') == PROP:
+            viol['sig'].pop('prop', None)
+            keep.append(viol)
+        else:
+            print("NOTE C09: a relay session showed an anomaly that belongs to another property: %s" % viol['sig'])
+    turn['violations'] = keep
+    res = vlib.merge_results([dial, acc, tcpd, tcps, turn])
     for viol in res['violations']:
         v.violation(viol['sig'], viol.get('replay'))
     # whole sessions with both real binaries on this multi-address host; traces validated against SessionTrace.tla
@@ -84,6 +100,7 @@ def run(tier, seed):
                                   accept_scripts=acc['behaviours'], distinct_accept_scripts=acc['distinct'],
                                   dial_outcomes=dial['extra'].get('outcomes'), accept_outcomes=acc['extra'].get('outcomes'),
                                   candidate_addresses=dial['extra'].get('candidate_ips'),
+                                  relay_sessions=dict(sessions=turn['behaviours'], outcomes=turn['extra'].get('outcomes')),
                                   tcp_variant=dict(dial_rounds=tcpd['behaviours'], dial_outcomes=tcpd['extra'].get('outcomes'),
                                                    dumb_tcp_sessions=tcps['behaviours'], session_outcomes=tcps['extra'].get('outcomes'))),
                       whole_sessions=dict(sessions=sess['res']['behaviours'], outcomes=sess['res']['extra'].get('outcomes'), trace_lines_validated=sess['lines']),
@@ -92,5 +109,5 @@ def run(tier, seed):
     v.assumptions = ["the order of client-side completions is controlled at the ice.dial.done hook (after the handshake, before the offer); "
                      "handshakes cancelled in mid-flight happen as the scheduler has them",
                      "the accepting side takes a connection as soon as it is queued (the real binary cannot be delayed); later model choices are not realisable and are covered by the model only",
-                     "no real NAT / TURN relay (sealed sandbox); relay-prefixed candidates point at the same listener"]
+                     "the TURN relay is a pion/turn server on loopback (no NAT between the peers); in the gated dial replay relay-prefixed candidates point at the same listener"]
     return v.finish()
